@@ -4,6 +4,16 @@ Stages: proof (Props/C16.v) -> exact correspondence of the piece count / piece l
 split() with the rational model (vm_compute of Lattice/Split.c16_check; float64 values as exact rationals) ->
 property oracle on the implementation alone (sums, bounds, dtype, attributes, sequential tracking of the pieces vs the
 whole, unsplittable classes, segments, vectorised lengths) -> known findings -> verdict.
+
+Finding F29 (a zero-length corrector with an angle splits into NO pieces).  Lattice/Split.v holds two transcriptions: `split`
+(the code before the repair: num_splits = 0 gives []) and `split_fixed` (the repaired correctors return [self] when
+num_splits < 1).  Which one is the faithful model is decided by the STATUS of F29 in known_findings.json:
+  known -> model `split` (checker c16_check); a thin corrector that loses its angle is a KNOWN-FINDING; the segment generator
+           avoids thin correctors with an angle.  If the code already behaves like `split_fixed` the run stays quiet and notes
+           that the status is stale.
+  fixed -> model `split_fixed` (checker c16_check_fixed); thin correctors with an angle are ordinary cases (one piece, the
+           element itself, whole angle, tracking the pieces == tracking the whole) and are generated inside segments too; the
+           stored input of F29 is replayed as a regression test: if it fails again -> VIOLATION with that input.
 """
 import json
 import math
@@ -21,8 +31,23 @@ From Cheetah Require Import Lattice.Split.
 Import ListNotations. Open Scope Q_scope."""
 DT = torch.float64
 SPLITTABLE = ("Drift", "Quadrupole", "HorizontalCorrector", "VerticalCorrector")
+STATE = {"f29_known": True}      # set by main() from the status of F29 in known_findings.json
+F29_BACK = "the repaired defect F29 is back: a zero-length (thin) corrector with angle != 0 loses its deflection angle when split"
 F29_TEXT = ("a zero-length (thin) Horizontal/VerticalCorrector with angle != 0 splits into NO pieces (num_splits = ceil(0/res) = 0): "
             "the deflection angle is lost [F29]")
+
+
+def finding_status(fid):
+    """'known' / 'fixed' / None (not listed) for finding `fid` of this property in known_findings.json"""
+    st = [f.get("status") for f in common.load_known_findings(PID) if f.get("id") == fid]
+    if "known" in st:
+        return "known"
+    return st[0] if st else None
+
+
+def f29_signature(c, n):
+    """class + parameter predicate + observable of F29: thin corrector, angle != 0, NO piece"""
+    return c["cls"].endswith("Corrector") and c["L"] == 0.0 and c.get("angle", 0.0) != 0.0 and n == 0
 
 
 def make(cls, L, res_unused=None, angle=0.0, k1=0.0, mis=(0.0, 0.0), tilt=0.0, steps=1, method="cheetah", dtype=DT):
@@ -68,8 +93,12 @@ def gen_len_res(rng):
     return rng.choice([0.5, 1.0]), rng.choice([0.003, 0.0071]), mode
 
 
-def exact_n(L, res):
-    return max(0, math.ceil(Fraction(L) / Fraction(res)))
+def exact_n(L, res, cls=""):
+    """piece count of the faithful model (split / split_fixed by the status of F29)"""
+    n = max(0, math.ceil(Fraction(L) / Fraction(res)))
+    if n < 1 and cls.endswith("Corrector") and not STATE["f29_known"]:
+        return 1                   # repaired correctors: num_splits < 1 -> [self]
+    return n
 
 
 def gen_case(rng):
@@ -90,6 +119,14 @@ def observe(c):
     e = make_case(c)
     ps = e.split(torch.tensor(c["res"], dtype=DT))
     return [(float(p.length), float(getattr(p, "angle", torch.tensor(0.0)))) for p in ps], e, ps
+
+
+KIND = {"Drift": 0, "Quadrupole": 0, "HorizontalCorrector": 1, "VerticalCorrector": 2}
+
+
+def coq_case_kind(c, pieces):
+    """term for c16_check_fixed / c16_check_old: (kind of element, case)"""
+    return f"({KIND[c['cls']]}%nat, {coq_case(c, pieces)})"
 
 
 def coq_case(c, pieces):
@@ -139,10 +176,25 @@ def oracle_case(c, rng, beams):
     if c["cls"].endswith("Corrector"):
         asum = sum(a for _, a in pieces)
         if abs(asum - c["angle"]) > 1e-12 * max(1e-6, abs(c["angle"])):
-            if L == 0.0 and c["angle"] != 0.0 and n == 0:
+            if f29_signature(c, n) and STATE["f29_known"]:
                 known.append(F29_TEXT)
             else:
-                bad.append(f"sum of piece angles {asum} != angle {c['angle']}")
+                bad.append(f"sum of piece angles {asum} != angle {c['angle']}" + (f" ({F29_BACK} [F29 is listed fixed])" if f29_signature(c, n) else ""))
+        elif L == 0.0:
+            # a thin corrector is a pure kick: here "tracking the pieces in turn equals tracking the whole" is part of the property
+            # (a corrector WITH a length is drift-then-kick, its pieces kick earlier: only the angles are compared, see oracle_dup_segment)
+            for bname, b in beams:
+                try:
+                    whole = e.track(b)
+                    out = b
+                    for p in ps:
+                        out = p.track(out)
+                except Exception as ex:
+                    bad.append(f"tracking raised {type(ex).__name__}: {ex}")
+                    continue
+                d = realgen.beams_close(out, whole, rtol=1e-9, atol=1e-13)
+                if d:
+                    bad.append(f"thin corrector: tracking the {n} pieces in turn differs from tracking the whole ({bname} beam): {d}")
     else:
         for bname, b in beams:
             if c.get("method") == "bmadx" and bname != "particle":
@@ -206,6 +258,16 @@ def oracle_misc(run):
         run.count("vectorised_" + cls)
         if len(ps) != 3 or not torch.allclose(tot, Ls, rtol=1e-13, atol=0) or any(bool((p.length > r * (1 + 4e-16)).any()) for p in ps):
             bad.append({"kind": "vectorised", "cls": cls, "what": "vectorised lengths: wrong count / sum / bound", "n": len(ps)})
+    # thin correctors with vectorised (all zero) lengths and vectorised angles: kept as they are (only once F29 is repaired)
+    if not STATE["f29_known"]:
+        for cls in ("HorizontalCorrector", "VerticalCorrector"):
+            e = make(cls, [0.0, 0.0], angle=[1e-3, -2e-3])
+            ps = e.split(torch.tensor(0.25, dtype=DT))
+            run.count("vectorised_thin_" + cls)
+            asum = sum(p.angle for p in ps) if ps else torch.zeros(2, dtype=DT)
+            if len(ps) != 1 or not torch.equal(asum, e.angle) or not torch.equal(ps[0].length, e.length):
+                bad.append({"kind": "vectorised", "cls": cls, "what": "thin corrector with vectorised lengths [0, 0] / angles: the pieces' angles do not add up "
+                            "to the angles (F29 is listed fixed)", "n": len(ps)})
     # dtype float32
     for cls in SPLITTABLE:
         e = make(cls, 0.5, dtype=torch.float32)
@@ -223,16 +285,20 @@ DUP_CLASSES = ["Drift", "Drift", "Drift", "Quadrupole", "Quadrupole", "Quadrupol
 DUP_LEN = [0.1, 0.25, 0.37, 0.5, 1.0]
 
 
-def gen_dup_lattice(rng, depth):
+def gen_dup_lattice(rng, depth, thin_kickers=False):
     """A segment in which DIFFERENT elements carry the SAME name (Cheetah does not enforce unique names; Segment exposes homonyms
     as a list attribute), at top level and inside sub-segments; sub-segments may share a name with each other or with a leaf;
-    {"ref": i} repeats the very same instance as sibling i (FODO style).  No zero-length correctors (finding F29)."""
+    {"ref": i} repeats the very same instance as sibling i (FODO style).  thin_kickers (only once finding F29 is repaired):
+    some correctors are zero-length with an angle -- a pure kick that Segment.split must keep."""
     def leaf(name):
         e = realgen.gen_element(rng, cls=rng.choice(DUP_CLASSES), name=name, length_pool=DUP_LEN)
         if "k1" in e["kw"]:
             e["kw"]["k1"] = rng.choice([0.0, 0.5, -0.5, 2.0, -3.0, 1e-3])
         if e["cls"].endswith("Corrector") and rng.random() < 0.5:
             e["kw"]["angle"] = 0.0
+        if thin_kickers and e["cls"].endswith("Corrector") and rng.random() < 0.5:
+            e["kw"]["length"] = 0.0
+            e["kw"]["angle"] = rng.choice([1e-3, -2e-3, 0.01])
         return e
 
     def seg(d, name):
@@ -257,6 +323,12 @@ def build_dup(spec):
     for c in spec["es"]:
         built.append(built[c["ref"]] if "ref" in c else build_dup(c))
     return cheetah.Segment(built, name=spec["name"])
+
+
+def _thin_kicker(spec):
+    if spec.get("cls") == "Segment":
+        return any(_thin_kicker(c) for c in spec["es"])
+    return "ref" not in spec and spec["cls"].endswith("Corrector") and spec["kw"]["angle"] != 0.0 and spec["kw"]["length"] == 0.0
 
 
 def _thick_kicker(spec):
@@ -306,6 +378,23 @@ def oracle_dup_segment(spec, res, beams):
         bad.append(f"piece lengths add up to {tot_g}, segment length is {tot}")
     if any(float(p.length) > res * (1 + 4e-16) for p in got if type(p).__name__ in SPLITTABLE):
         bad.append("a piece of a splittable element is longer than the resolution")
+
+    def kicks(es):
+        t = {"HorizontalCorrector": [0.0, 0.0], "VerticalCorrector": [0.0, 0.0]}       # class -> [sum, sum of magnitudes]
+        for x in es:
+            if isinstance(x, cheetah.Segment):
+                for k, v in kicks(x.elements).items():
+                    t[k][0] += v[0]
+                    t[k][1] += v[1]
+            elif type(x).__name__ in t:
+                t[type(x).__name__][0] += float(x.angle)
+                t[type(x).__name__][1] += abs(float(x.angle))
+        return t
+    # Segment.split never loses a kick (Coq: split_fixed_total_angle).  While F29 is known the generator makes no thin kicker.
+    kw, kp = kicks(seg.elements), kicks(got)
+    for k in kw:
+        if abs(kw[k][0] - kp[k][0]) > 1e-12 * max(1e-6, kw[k][1]):
+            bad.append(f"the {k} angles of the pieces add up to {kp[k][0]}, those of the segment's elements to {kw[k][0]}")
     bmadx = any(getattr(p, "tracking_method", "") == "bmadx" for p in exp)
     # a corrector with a length is drift-then-kick: its pieces kick earlier than the whole, so C16 only states that the piece
     # angles add up (checked piece by piece above); the tracking clause is for segments without such a kicker
@@ -373,8 +462,10 @@ def oracle_dup(run, beams, n):
     bad = []
     for i in range(n):
         depth = [0, 1, 2][i % 3]
-        spec = gen_dup_lattice(run.rng, depth)
+        spec = gen_dup_lattice(run.rng, depth, thin_kickers=not STATE["f29_known"] and i % 2 == 1)
         res = run.rng.choice([0.05, 0.1, 0.2, 0.3])
+        if _thin_kicker(spec):
+            run.count("segment_with_thin_kicker" + ("_tracked" if not _thick_kicker(spec) else "_split_only"))
         run.count("segment_homonyms_" + ("flat" if depth == 0 else "nested"))
         if any("ref" in c for c in spec["es"]):
             run.count("segment_reused_instance")
@@ -388,16 +479,39 @@ def oracle_dup(run, beams, n):
     return bad
 
 
-def replay_known(run):
+def replay_known(run, beams):
+    """replays the stored input of every listed finding.  known + still failing -> KNOWN-FINDING; known + passing -> note (the
+    status is stale); fixed + failing again -> VIOLATION (regression) with that input.  Returns the set of ids that regressed."""
+    regressed = set()
     for f in common.load_known_findings(PID):
-        if f.get("status") != "known":
+        c = (f.get("replay") or {}).get("case")
+        if not c:
             continue
-        c = f["replay"]["case"]
-        pieces, e, ps = observe(c)
-        if len(ps) == 0 and c["angle"] != 0.0:
-            run.known(f["what"])
-        else:
-            run.cov["known_findings_not_reproduced"].append(f["id"])
+        exc = None
+        try:
+            pieces, e, ps = observe(c)
+            known, bad = oracle_case(c, run.rng, beams)
+        except Exception as ex:
+            pieces, ps, known, bad, exc = [], [], [], [], f"{type(ex).__name__}: {ex}"[:300]
+        if f.get("status") == "known":
+            if f29_signature(c, len(ps)) and not exc:
+                run.known(f["what"])
+            else:
+                run.cov["known_findings_not_reproduced"].append(
+                    f"{f['id']}: the stored input now splits into {len(ps)} piece(s) {pieces}" + ("" if bad or exc else
+                    ": the property holds on it, the code behaves like the repaired split (model split_fixed); the status of "
+                    f"{f['id']} is stale (flip it to fixed)"))
+                if not bad and not exc:
+                    run.notes.append(f"{f['id']} is listed known but the code keeps the thin corrector (behaves like the repaired split)")
+        elif f.get("status") == "fixed":
+            run.cov.setdefault("fixed_findings_replayed", []).append(f["id"])
+            if (bad or exc) and f["id"] not in regressed:
+                regressed.add(f["id"])
+                run.violation({"kind": "regression", "finding": f["id"], "what": f"fixed finding {f['id']} fails again on its stored input: " + f["what"],
+                               "case": c, "pieces": pieces, "failures": bad, "exception": exc,
+                               "relation": "the pieces of a corrector keep its deflection: the angles of split(resolution) add up to the angle "
+                                           "(a zero-length corrector is returned as it is)"})
+    return regressed
 
 
 def main(tier, replay=None):
@@ -407,29 +521,38 @@ def main(tier, replay=None):
     run.cov["rule"] = ("Drift / Quadrupole (both tracking methods, tilt, misalignment, num_steps) / Horizontal- and VerticalCorrector with sampled "
                        "(length, resolution) pairs: generic, resolution >= length, exactly dividing, non-dividing, ratio within a few ulps of an "
                        "integer, length 0, very fine resolution; piece count and float64 piece lengths / angles compared (as exact rationals) with "
-                       "vm_compute of the rational model; plus sums, bounds, dtype, attributes, sequential tracking of the pieces vs the whole on "
+                       "vm_compute of the rational model (split / split_fixed by the status of F29); plus sums, bounds, dtype, attributes, sequential tracking of the pieces vs the whole on "
                        "both beam types, unsplittable classes, segments (uniquely named; and segments in which different elements / sub-segments "
                        "share a name, flat and nested, with reused instances: split == concatenation of each occurrence's own split, lengths add "
                        "up, tracking the pieces == tracking the segment), vectorised lengths. Non-trivial = more than one piece; distinct by "
                        "case content.")
+    # finding F29: while it is listed `known` the faithful model is `split` (the code before the repair); once it is flipped to
+    # `fixed` the faithful model is `split_fixed` and a thin corrector that loses its angle is a regression
+    STATE["f29_known"] = f29_known = finding_status("F29") == "known"
     if replay:
         return do_replay(run, replay)
     proof_ok = run.proof_stage()
     if not proof_ok:
         run.notes.append(run.proof_problem)
+    run.cov["split_model"] = ("split (code before the repair of F29: a zero-length corrector splits into no piece; C16_corrector_split_angle_refuted)"
+                              if f29_known else "split_fixed (code after the repair of F29: a corrector with num_splits < 1 is returned as it is)")
 
     n_cases = 2500 if thorough else 400
     beams = [("particle", realgen.build_beam(realgen.gen_particle_beam(run.rng, n=4, energy=2e7))),
              ("parameter", realgen.build_beam(realgen.gen_parameter_beam(run.rng, energy=1e8)))]
-    cases, terms, impl_bad, unspecified = [], [], [], 0
+    cases, terms, terms_kind, impl_bad, unspecified = [], [], [], [], 0
     for _ in range(n_cases):
         c = gen_case(run.rng)
         pieces, e, ps = observe(c)
         run.count("cls_" + c["cls"])
         run.count("mode_" + c["mode"])
+        if c["cls"].endswith("Corrector") and c["L"] == 0.0 and c["angle"] != 0.0:
+            run.count("thin_corrector_with_angle")
+            if len(ps) == 1 and ps[0] is e:
+                run.count("thin_corrector_with_angle_kept_as_it_is")
         run.add_case(c, len(ps) > 1)
-        nx = exact_n(c["L"], c["res"])
-        if len(ps) != nx:
+        nx = exact_n(c["L"], c["res"], c["cls"])
+        if len(ps) != nx and c["L"] != 0.0:          # (0 / res is exactly 0 in floats too: nothing unspecified at length 0)
             ratio = Fraction(c["L"]) / Fraction(c["res"])
             if abs(ratio - round(ratio)) <= Fraction(1, 2 ** 50) * max(1, abs(ratio)):
                 unspecified += 1          # float ceil of the rounded quotient vs exact ceil: within an ulp of an integer
@@ -443,18 +566,46 @@ def main(tier, replay=None):
             impl_bad.append((c, bad))
         cases.append(c)
         terms.append(coq_case(c, pieces))
+        terms_kind.append(coq_case_kind(c, pieces))
     if cases:
         run.sample({"case": cases[0], "pieces": observe(cases[0])[0]})
-    failing = common.run_shards(PID, "split", PREAMBLE, terms, "c16_check")
+    if f29_known:
+        failing = common.run_shards(PID, "split", PREAMBLE, terms, "c16_check")
+    else:
+        failing = common.run_shards(PID, "split", PREAMBLE, terms_kind, "c16_check_fixed")
     run.cov["traces_validated_against_impl"] += len(cases)
+    # cases that disagree with the transcription selected by the status of F29: evaluate the OTHER transcription on them.
+    # F29 known + the code equals split_fixed there -> the finding no longer reproduces (note, no alarm: the lead flips the status);
+    # F29 fixed + the code equals the old split     -> the repaired defect is back: stays broken, the oracle has the input.
+    thin_fail = [k for k in failing if cases[k]["cls"].endswith("Corrector") and cases[k]["L"] == 0.0]
+    if thin_fail:
+        other = "c16_check_fixed" if f29_known else "c16_check_old"
+        f2 = common.run_shards(PID, "split_other", PREAMBLE, [terms_kind[k] for k in thin_fail], other)
+        if not f2:
+            run.cov["other_split_model_matches"] = f"{other} holds on all {len(thin_fail)} disagreeing thin-corrector cases"
+            if f29_known:
+                run.cov["known_findings_not_reproduced"].append(
+                    f"F29: split() of a zero-length corrector equals the repaired model split_fixed on all {len(thin_fail)} disagreeing cases; "
+                    "the status of F29 is stale (flip it to fixed)")
+                run.notes.append("F29 is listed known but the code computes the repaired split (thin correctors are kept)")
+                failing = [k for k in failing if k not in thin_fail]
+            else:
+                run.notes.append("F29 is listed fixed but split() of a zero-length corrector equals the old model `split`: the repaired defect is back")
     misc_bad = oracle_misc(run)
     misc_bad += oracle_dup(run, beams, 150 if thorough else 15)
-    replay_known(run)
+    regressed = replay_known(run, beams)
+    if "F29" in regressed:      # explained by the regression just reported (with the stored input)
+        impl_bad = [(c, bad) for c, bad in impl_bad if not f29_signature(c, len(observe(c)[2]))]
+        failing = [k for k in failing if not (cases[k]["cls"].endswith("Corrector") and cases[k]["L"] == 0.0 and len(observe(cases[k])[2]) == 0)]
+        misc_bad = [m for m in misc_bad if not (m.get("kind") == "dup_segment" and _thin_kicker(m["lattice"]))
+                    and not (m.get("kind") == "vectorised" and "thin corrector" in m.get("what", ""))]
     run.cov["tested_only"] = ["sequential tracking of the pieces vs the whole on the real classes (float64, rtol 1e-9), incl. Bmad-X tracking (no Coq model of Bmad-X here)",
                               "dtype preservation, attribute preservation, unsplittable classes return [self], Segment.split concatenation (incl. segments with "
                               "homonymous elements / sub-segments and reused instances, pieces tracked in turn vs Segment.track), vectorised lengths"]
 
-    if impl_bad:
+    if regressed and not (impl_bad or misc_bad or failing) and proof_ok:
+        pass                      # the regression (with its stored input) has been reported by replay_known
+    elif impl_bad:
         c, bad = impl_bad[0]
         run.violation({"kind": "split_case", "case": c, "failures": bad, "relation": "pieces add up to the length, none longer than the resolution, "
                        "same dtype/attributes, tracking the pieces in turn equals tracking the whole, corrector angles add up"})
@@ -463,7 +614,8 @@ def main(tier, replay=None):
     elif failing:
         c = cases[failing[0]]
         run.violation({"kind": "correspondence", "broken": "rational model Lattice/Split.v (c16_check) disagrees with split() on this case",
-                       "case": c, "pieces": observe(c)[0], "model_count": exact_n(c["L"], c["res"])}, no_input=True)
+                       "case": c, "pieces": observe(c)[0], "model_count": exact_n(c["L"], c["res"], c["cls"]),
+                       "model": run.cov["split_model"]}, no_input=True)
     elif not proof_ok:
         run.violation({"kind": "proof", "broken": run.proof_problem}, no_input=True)
     return run.finish("proof")
@@ -475,7 +627,8 @@ def do_replay(run, path):
         beams = [("particle", realgen.build_beam(realgen.gen_particle_beam(run.rng, n=4, energy=2e7))),
                  ("parameter", realgen.build_beam(realgen.gen_parameter_beam(run.rng, energy=1e8)))]
         known, bad = oracle_case(r["case"], run.rng, beams)
-        print("replay:", "property holds on this input" if not bad else f"property FAILS on this input: {bad}")
+        print("replay:", ("property holds on this input" if not known else f"the property fails on this input, matching the listed known finding: {known[0]}")
+              if not bad else f"property FAILS on this input: {bad}")
         return 1 if bad else 0
     if r.get("kind") == "dup_segment":
         beams = [("particle", realgen.build_beam(realgen.gen_particle_beam(run.rng, n=4, energy=2e7))),
